@@ -118,7 +118,8 @@ def parseItem (j : Json) : R Item := do
       | some n, some v => do pure ((← n.getStr?), (← parseOperand v))
       | _, _ => throw "bad kv"
     pure (.op (.replaceValues kvs))
-  | "setValues" => do pure (.op (.setValues (← parseOperand (← obj j "v"))))
+  | "setValues" => do
+    pure (.op (.setValues (← parseOperand (← obj j "v")) (← (← arr j "alts").toList.mapM (·.getStr?))))
   | "setStrict" => do pure (.op (.setStrict (← bool j "b")))
   | "badKey" => do pure (.op (.badKey (← bool j "tuple")))
   | "getItem" => do pure (.getItem (← str j "name"))
